@@ -2,6 +2,7 @@
 import itertools
 import wire
 from wire import mk_fmt, cells
+from curtsies.formatstring import FmtStr, Chunk
 from props.common import chunks_for, reply_fmt, guarded, canon_cells, PALETTE
 
 PROP = "C09"
@@ -10,6 +11,7 @@ RULE = ("exhaustive: every layout of 0..3 runs with run lengths 0..3 (distinct c
         "entry i) x 9 `new` values (+3 plain strs containing SGR sequences on the layouts of <=4 characters) (empty str, fmtstr(''), FmtStr() without chunks, 1-char str, multi-char str with a "
         "space, 2-char one-run FmtStr, 2-run FmtStr, 3-run FmtStr with an empty middle run, FmtStr with explicit-False "
         "attribute) x every 0 <= start <= end <= len+2 and end omitted; append of every `new` to every layout; plus "
+        "the sweep again over layouts whose runs REPEAT (equal text and attributes, also the same Chunk object twice, in f and in new); "
         "the exhaustive sweep again over runs made of double-width, zero-width, combining and control characters (\\n, \\t); "
         "seeded random cases with up to 6 runs of length 0..5 and random multi-run `new`. non-trivial = distinct "
         "(f, new, start, end) where something is inserted or a non-empty range is deleted")
@@ -38,6 +40,32 @@ ESC_NEWS = [("s", "\x1b[31mX\x1b[39m"), ("s", "\x1b[31m"), ("s", "a\x1b[0mb")]
 
 
 WIDE = "\uff25\u0301\n\uff48\u200b\t\uff49\u754cx"
+
+
+# runs that REPEAT inside one string: equal text and attributes at different offsets (what `f * 2` and `sep.join(...)`
+# produce - there even the same Chunk OBJECT twice): run boundaries must be located by position, not by equality
+RUN_A, RUN_B, RUN_E, RUN_C = ("ab", {"fg": 34}), ("-", {"fg": 31}), ("", {}), ("ab", {})
+REPEATED = [list(t) for n in (2, 3) for t in itertools.product((RUN_A, RUN_B, RUN_E), repeat=n)] + [
+    [RUN_A, RUN_B, RUN_A, RUN_B], [RUN_A, RUN_A, RUN_B, RUN_A], [RUN_A, RUN_B, RUN_E, RUN_A], [RUN_B, RUN_A, RUN_B, RUN_A],
+    [RUN_C, RUN_A, RUN_C, RUN_A], [RUN_E, RUN_A, RUN_E, RUN_A], [RUN_A, RUN_A, RUN_A, RUN_A]]
+
+
+def build(chunks, share):
+    """the real FmtStr; share=True: equal runs are ONE Chunk object used several times (as `f * n` and join build them)"""
+    if not share:
+        return mk_fmt(chunks)
+    pool = {}
+    objs = []
+    for t, a in chunks:
+        k = (t, tuple(sorted(a.items())))
+        if k not in pool:
+            pool[k] = Chunk(t, dict(a))
+        objs.append(pool[k])
+    return FmtStr(*objs)
+
+
+def mk_f(c):
+    return build(c["f"], c.get("share", False))
 
 
 def all_layouts():
@@ -71,6 +99,21 @@ def mk_cases(ctx):
                     cases.append(dict(op="setitem", f=ch, new=new, start=start))
     ctx.exhaustive.append("splice/append over all layouts of <=3 runs of lengths 0..3 x %d new values x all "
                           "0<=start<=end<=len+2 and end omitted: %d cases" % (len(NEWS), len(cases)))
+    n2 = 0
+    for ch in REPEATED:
+        n = sum(len(t) for t, _ in ch)
+        for share in ((False, True) if len(ch) <= 3 else (True,)):
+            for new in (("s", "X"), ("s", ""), ("f", [RUN_A, RUN_A]), ("f", [RUN_B, RUN_A, RUN_B])):
+                for start in range(0, n + 3):
+                    cases.append(dict(op="splice", f=ch, new=new, start=start, end=None, share=share))
+                    for end in range(start, n + 3):
+                        cases.append(dict(op="splice", f=ch, new=new, start=start, end=end, share=share))
+                        n2 += 1
+                cases.append(dict(op="append", f=ch, new=new, share=share))
+                for start in range(0, n + 1):
+                    cases.append(dict(op="setitem", f=ch, new=("s", "X"), start=start, share=share))
+    ctx.exhaustive.append("the same over %d layouts with REPEATED equal runs (equal text and attributes at different offsets, "
+                          "also as one shared Chunk object) x 4 new values (two with repeated runs): %d splice cases" % (len(REPEATED), n2))
     # runs containing double-width (U+FF25, U+FF48, U+FF49, U+754C), zero-width (U+0301, U+200B) and control characters
     # (\n, \t): splice works on CHARACTER offsets - column widths (Chunk.width, which even raises for \n / \t) must
     # play no role in locating start/end
@@ -94,7 +137,9 @@ def mk_cases(ctx):
     for _ in range(20000 if ctx.thorough else 3000):
         lens = tuple(r.randint(0, 5) for _ in range(r.randint(0, 6)))
         ch = chunks_for(lens, alphabet=(WIDE * 4 if r.random() < 0.15 else alpha), shift=r.randint(0, 6))
-        n = sum(lens)
+        if ch and r.random() < 0.15:
+            ch = [r.choice(ch[:2]) for _ in range(r.randint(2, 5))]      # a few runs repeated at random positions
+        n = sum(len(t) for t, _ in ch)
         q = r.random()
         if q < 0.04:
             new = ("s", r.choice(["\x1b[31mX\x1b[39m", "\x1b[1m", "p\x1b[44mq\x1b[49m", "\x1b[0m\x1b[32myz", "ab\x1b[", "\x1b[5;31mK"]))
@@ -130,7 +175,7 @@ def line(c):
 
 def mk_new(new):
     k, v = new
-    return v if k == "s" else mk_fmt(v)
+    return v if k == "s" else build(v, True)
 
 
 def call(c, f, new):
@@ -144,7 +189,7 @@ def call(c, f, new):
 
 
 def run_impl(c):
-    return call(c, mk_fmt(c["f"]), mk_new(c["new"]))
+    return call(c, mk_f(c), mk_new(c["new"]))
 
 
 def impl(c):
@@ -192,7 +237,7 @@ def oracle(c, model_reply=None):
     """-> None, or (what, footprint). model_reply: the Lean model's reply for this request - an independent parser's value of
     what parsing the str operand explains (never the tree's own fmtstr)."""
     exp = expected(c)
-    f = mk_fmt(c["f"])
+    f = mk_f(c)
     new = mk_new(c["new"])
     if c["op"] == "setitem":
         n = sum(len(s) for s, _ in c["f"])
